@@ -61,6 +61,8 @@ def library():
     add("options", "yaml_list", ["```{note}", "---", "- a", "---", "b", "```"])
     add("options", "unknown_key", ["```{note}", ":nosuch: 1", "", "b", "```"])
     add("options", "invalid_value", ["```{code-block} python", ":lineno-start: x", "", "a=1", "```"])
+    add("options", "empty_value_strmethod", ["```{figure} a.png", ":figwidth:", "", "cap", "```", "", "```{csv-table}", ":delim:", ":quote:", "", "a,b", "```"])
+    add("options", "empty_value_figure_md", ["```{figure-md}", ":width:", "", "![a](a.png)", "", "cap", "```"], front="sphinx")
     add("options", "escape_overflow", ["```{note}", ':class: "\\UFFFFFFFF"', "", "b", "```"])
     # directives
     add("directive", "unknown", ["```{nosuchdirective}", "b", "```"])
